@@ -85,7 +85,7 @@ Definition show_plans (e : entry) (files : list ast) : sx :=
   match front e Debug files with Ok mir => sx_plans mir | _ => SL [] end.
 
 (* ---- C02 ---- *)
-Require Import spec.Spec_C02 proofs.C02Proofs.
+Require Import spec.Spec_C02 PlanDefs.
 
 Definition find_mfunc (mir : list mtop) (iface meth : string) : option mfunc :=
   match find (fun t => match t with MTIface i => String.eqb (mi_name i) iface | _ => false end) mir with
@@ -415,7 +415,7 @@ Definition const_values (raw : string) : list Z :=
   [z_or (eval_c_int raw); z_or (eval_rust_int raw); z_or (math_int (parse_literal raw))].
 
 (* ---- C16 / C14: the PST -> AST model against the real parser ---- *)
-Require Import Pst proofs.PstProofs.
+Require Import Pst PstWf.
 Definition sx_aty (t : aty) : sx :=
   match t with TBuffer => SL [SA 0] | TPrim p => SL [SA 1; sx_prim p] | TIface => SL [SA 2] | TCustom n => SL [SA 3; SS n] end.
 Definition sx_cdef (c : cdef) : sx := SL [SS (c_name c); sx_prim (c_ty c); SS (c_val c)].
